@@ -169,3 +169,94 @@ def monitor_strict(report, walks, prop="C08"):
     report.count("strict.operations-resolved", resolved)
     report.obligation("mon:C08", "monitor", ok, f"{len(walks)} runs of a driver that services only at reported times against a responsive broker: no lost wake-up, no idle spin")
     return ok
+
+
+# ------------------------------------------------------------------------------------------------
+# bounded-exhaustive correspondence: every sequence of events over a small alphabet, up to a depth
+# ------------------------------------------------------------------------------------------------
+
+ALPHABET = [
+    "eng.pub t={t} | publish pid=0 topic=x742f30 qos=0 retain=0 payload=x0000",
+    "eng.pub t={t} timeout=500 | publish pid=0 topic=x742f31 qos=1 retain=0 payload=x0001",
+    "eng.pub t={t} | publish pid=0 topic=x742f32 qos=2 retain=0 payload=x0002",
+    "eng.sub t={t} | subscribe pid=0 sub=x662f30:1:0:0:0",
+    "eng.disc t={t} | disconnect rc=0",
+    "eng.open t={t} deadline={d}",
+    "eng.close t={t}",
+    "eng.svc t={t} cap=4096 prefill=0",
+    "eng.svc t={t} cap=5 prefill=0",
+    "eng.wc t={t}",
+    "eng.data t={t} b=x2003000000",          # CONNACK, no session
+    "eng.data t={t} b=x2003010000",          # CONNACK, session present
+    "eng.data t={t} b=x40020001",            # PUBACK 1
+    "eng.data t={t} b=x50020001",            # PUBREC 1
+    "eng.data t={t} b=x70020001",            # PUBCOMP 1
+    "eng.data t={t} b=x9004000100",          # SUBACK 1
+    "eng.data t={t} b=x34070001610002",      # inbound QoS 2 PUBLISH id 2
+    "eng.data t={t} b=x62020002",            # PUBREL 2
+    "eng.data t={t} b=xd000",                # PINGRESP
+    "eng.data t={t} b=xff",                  # garbage
+    "eng.reset t={t}",
+    "TIME+1000",
+    "TIME+100000",
+]
+
+
+def exhaustive(report, prop, depth, label="exhaustive"):
+    """all event sequences of the given depth over ALPHABET, from a fresh engine, for a few configurations; the
+    implementation and the model must agree on every response (and the implementation must never panic)"""
+    import itertools
+    from gv import harness_batch
+    configs = ["eng.new v=5 policy=all | ka=60 rejoin=always cid=x63",
+               "eng.new v=5 policy=nothing drain=one retries=1 | ka=1 rejoin=post",
+               "eng.new v=311 policy=acked | ka=0 rejoin=never cid=x63"]
+    ok, nopanic = True, True
+    bad = 0
+    nseq_total, nsteps_total = 0, 0
+    # in chunks (one configuration and one first event at a time) so that memory stays bounded at depth 4 and above
+    for cfg in configs:
+        for first in range(len(ALPHABET)):
+            reqs, starts = [], []
+            for tail in itertools.product(range(len(ALPHABET)), repeat=depth - 1):
+                seq = (first,) + tail
+                t = 0
+                starts.append(len(reqs))
+                reqs.append("session.reset")
+                reqs.append(cfg)
+                for a in seq:
+                    ev = ALPHABET[a]
+                    if ev.startswith("TIME+"):
+                        t += int(ev[5:])
+                        reqs.append(f"eng.nst t={t}")
+                    else:
+                        reqs.append(ev.format(t=t, d=t + 30000))
+            impl = harness_batch(reqs)
+            model = driver_batch(reqs)
+            nseq = len(starts)
+            nseq_total += nseq
+            nsteps_total += len(reqs)
+            for k, st in enumerate(starts):
+                end = starts[k + 1] if k + 1 < nseq else len(reqs)
+                for i in range(st, end):
+                    a, b = impl[i], model[i]
+                    if a.startswith("res=panic") or a == "res=died":
+                        if bad < 3:
+                            report.add_finding(Finding(prop, "mon:" + label, {"clause": "panic"}, "engine panicked on a short event sequence: " + a[:120], reqs[st + 1:i + 1]))
+                        nopanic = False
+                        bad += 1
+                        break
+                    if canon(a) != canon(b):
+                        if bad < 3:
+                            report.add_finding(Finding(prop, "corr:" + label, {"clause": "model-vs-impl", "verb": reqs[i].split(" ")[0]},
+                                                       "short event sequence: implementation and model disagree", reqs[st + 1:i + 1] + ["# impl:  " + a[:400], "# model: " + b[:400]], has_input=False))
+                        ok = False
+                        bad += 1
+                        break
+    nseq = nseq_total
+    reqs = [None] * nsteps_total
+    report.count(label + ".sequences", nseq)
+    report.count(label + ".steps", len(reqs))
+    report.evaluations += nseq
+    report.obligation("corr:" + label, "correspondence", ok, f"all {nseq} event sequences of depth {depth} over a {len(ALPHABET)}-event alphabet x {len(configs)} configurations, every response compared")
+    report.obligation("mon:" + label + "-no-panic", "monitor", nopanic, "no panic on any of them")
+    return ok and nopanic
